@@ -216,7 +216,7 @@ def _st_lp(draw):
     return {"fn": "lp", "n": draw(st.one_of(st.integers(1, 64), st.integers(1, 2000))),
             "pad": draw(st.one_of(st.sampled_from([0.2, 0.01, 0.5, 1.0]), st.floats(0.001, 1.0))),
             "f0": f0, "f1": f0 + draw(st.floats(0.01, 0.6)), "c": draw(_consts), "seed": draw(_seed),
-            "layout": draw(st.sampled_from(LAY1)), "dtype": draw(st.sampled_from(["f8", "f8", "f4"])),
+            "layout": draw(st.sampled_from(LAY1)), "dtype": draw(st.sampled_from(["f8", "f8", "f4", "f8", "f4", "i8", "i2", "pyint"])),
             "fac_form": draw(st.sampled_from(["list", "list", "tuple", "array", "array_ro"])),
             "pad_form": draw(st.sampled_from(["kw", "kw", "pos", "default"])), "rep": draw(st.sampled_from(REP))}
 
@@ -227,7 +227,7 @@ def _st_rolling(draw):
     return {"fn": "rolling", "wl": wl, "n": wl + draw(st.one_of(st.integers(0, 3), st.integers(0, 300))),
             "window": draw(st.sampled_from(WINDOWS)), "c": draw(_consts), "as_list": draw(st.booleans()),
             "seed": draw(_seed),
-            "layout": draw(st.sampled_from(LAY1)), "dtype": draw(st.sampled_from(["f8", "f8", "f4"])),
+            "layout": draw(st.sampled_from(LAY1)), "dtype": draw(st.sampled_from(["f8", "f8", "f4", "f8", "f4", "i8", "i2", "pyint"])),
             "form": draw(st.sampled_from(["kw", "kw", "pos", "default_window", "default_all"])),
             "rep": draw(st.sampled_from(REP))}
 
@@ -900,6 +900,21 @@ def _const_err(out, c):
     return _maxabs(np.asarray(out, dtype=np.float64) - c) / max(abs(c), 1e-280) if c != 0 else _maxabs(out)
 
 
+INT_KINDS = {"i8": np.int64, "i2": np.int16, "pyint": None}
+
+
+def _int_const(c):
+    """The integer constant an integer-typed series of a case holds: |c| rounded into 1..30000, sign kept."""
+    v = int(min(max(round(abs(c)) if np.isfinite(c) else 7, 1), 30000))
+    return -v if c < 0 else v
+
+
+def _hand_int(v, dts, layout):
+    """Integer samples as the caller may hold them: int64 / int16 array (any layout) or a list of Python ints."""
+    v = np.asarray(v, dtype=np.int64)
+    return [int(t) for t in v] if dts == "pyint" else _lay(v.astype(INT_KINDS[dts]), layout)
+
+
 def _run_lp(case, ctx):
     sm = sut.smooth()
     n, pad, c = case["n"], case["pad"], case["c"]
@@ -914,6 +929,8 @@ def _run_lp(case, ctx):
     ctx.label("lp", "lp_n1" if n == 1 else ("lp_small" if n <= 8 else "lp_n>8"), "lp_pad1" if pad == 1.0 else "lp_pad<1",
               "lp_lay_" + layout, "lp_" + dts, "lp_fac_" + fac_form, "lp_pad_" + pad_form, f"lp_rep{len(plan) - 1}")
     ctx.nontrivial = c != 0 and n > 1
+    if dts in INT_KINDS:
+        ctx.label("lp_integer_samples_" + dts)
 
     def call(ts):
         if pad_form == "default":
@@ -922,16 +939,24 @@ def _run_lp(case, ctx):
             return ctx.call("C20.lp", sm.lp, ts, fac_in, pad)
         return ctx.call("C20.lp", sm.lp, ts, fac_in, pad=pad)
 
-    cin = _lay(np.full(n, c, dtype=dt), layout)
+    if dts == "pyint":
+        dts = "i8"      # lp reads ts.shape: arrays only (a list is accepted by rolling_window, whose docstring says so)
+    if dts in INT_KINDS:
+        # integer-typed samples (raw counts): the smoothed series is real-valued all the same
+        cin = _hand_int(np.full(n, _int_const(c)), dts, layout)
+        sig = _hand_int(np.random.default_rng(case["seed"]).integers(-1000, 1001, n), dts, layout)
+    else:
+        cin = _lay(np.full(n, c, dtype=dt), layout)
+        sig = _lay(np.random.default_rng(case["seed"]).standard_normal(n).astype(dt), layout)
     cval = float(cin[0])                # the constant the function is given (rounded to single precision for f4)
-    sig = _lay(np.random.default_rng(case["seed"]).standard_normal(n).astype(dt), layout)
     snaps = (_snap(cin), _snap(sig))
     # float32 input: np.pad keeps the dtype, the spectrum is computed in single precision
     ctol, rtol = (1e-12, 1e-12) if dt is np.float64 else (1e-5, 1e-5)
     first = None
     for tag in plan:
         if tag == "other":
-            if call(_lay((np.random.default_rng(case["seed"] + 1).standard_normal(n) * 3 + 1).astype(dt), layout)) is ctx.CRASH:
+            oth = np.random.default_rng(case["seed"] + 1).standard_normal(n) * 3 + 1
+            if call(_hand_int(np.round(oth * 100), dts, layout) if dts in INT_KINDS else _lay(oth.astype(dt), layout)) is ctx.CRASH:
                 return
             continue
         out = call(cin)
@@ -985,12 +1010,18 @@ def _run_rolling(case, ctx):
             return ctx.call("C20.rolling", sm.rolling_window, x, wl, win)
         return ctx.call("C20.rolling", sm.rolling_window, x, window_len=wl, window=win)
 
+    ints = case.get("dtype") in INT_KINDS
+
     def hand(v):
+        if ints:
+            return _hand_int(np.round(v), case["dtype"], "C" if case["as_list"] else layout)
         return [float(t) for t in v] if case["as_list"] else _lay(v.astype(dt), layout)
 
-    xin = hand(np.full(n, c, dtype=np.float64))
+    xin = hand(np.full(n, float(_int_const(c)) if ints else c, dtype=np.float64))
     cval = float(xin[0])
-    sig = hand(np.random.default_rng(case["seed"]).standard_normal(n))
+    sig = hand(np.random.default_rng(case["seed"]).standard_normal(n) * (300 if ints else 1))
+    if ints:
+        ctx.label("rolling_integer_samples_" + case["dtype"])
     snaps = (_snap(xin), _snap(sig))
     # float32 input: the convolution runs in double precision on the float32 values, the weights sum to one within eps
     first = None
